@@ -85,6 +85,10 @@ def _all():
     for L in lists:
         for R in lists:
             yield {"fam": "le", "L": L, "R": R}
+    # compound contracts built from strings: the empty alternative means "true"; guarantees carrying a guard on the input
+    for a in ([[]], [["i <= 1"], ["i >= 2", "i <= 3"]], [["i <= 0"]], []):
+        for g in ([[]], [["o <= 1"], ["o >= 2", "o <= 5"]], [["i <= 0", "o <= 1"], ["i >= 2", "o >= 5"]], [["o - i <= 0"], ["i >= 2", "o >= 3"]], []):
+            yield {"fam": "strings", "a": a, "g": g}
     # merge: disjoint assumption alternative lists x guarantee lists
     disj = [[interval("i", 0, 1), interval("i", 2, 3)], [interval("i", 0, 0), interval("i", 1, 2)], [interval("i", None, 1), interval("i", 2, None)],
             [interval("i", 1, 3)], [interval("i", 0, 1), interval("i", 3, 3)], [interval("i", 2, 1), interval("i", 0, 2)]]
@@ -233,6 +237,53 @@ def run_case(case):
             if w is not None:
                 viol = {"sub": "le", "what": "<= answered True but the left union is not contained in the right union", "witness": O.ptjson(w)}
         return [("le:%s" % got, len(rl) + len(rr) >= 3, None, viol)]
+    if fam == "strings":
+        from pacti.contracts import PolyhedralIoContractCompound
+        from pacti.iocontract import Var
+        from pacti.terms.polyhedra.serializer import polyhedral_termlist_from_string
+
+        def ref_alts(alts):
+            return [[O.rt(t) for s_ in alt for t in polyhedral_termlist_from_string(s_)] for alt in alts]
+
+        ra, rg = ref_alts(case["a"]), ref_alts(case["g"])
+        try:
+            c = PolyhedralIoContractCompound.from_strings(case["a"], case["g"], ["i"], ["o"])
+        except ValueError:
+            return [("strings:ValueError", False, None, None)]
+        i, o = Var("i"), Var("o")
+        pts = [(vi, vo) for vi in (-1, 0, 0.5, 1, 1.5, 2, 2.5, 3, 4) for vo in (-1, 0, 1, 1.5, 2, 3, 5, 6)]
+
+        def member(alts, pt):
+            return any(all(O.lhs(t, pt) <= t[1] for t in alt) for alt in alts)
+
+        def check(obj, tag):
+            for vi, vo in pts:
+                pt = {"i": F(vi), "o": F(vo)}
+                beh = {i: vi, o: vo}
+                for name, nested_, ref in (("assumptions", obj.a, ra), ("guarantees", obj.g, rg)):
+                    got = nested_.contains_behavior(beh)
+                    exp = member(ref, pt)
+                    if got is not exp:
+                        return {"sub": [tag, name, vi, vo], "what": "%s: the %s built from %s %s the behaviour i=%s o=%s, union semantics says %s" % (
+                            tag, name, case["a"] if name == "assumptions" else case["g"], "contain" if got else "do not contain", vi, vo, exp)}
+            return None
+
+        viol = check(c, "from_strings")
+        out.append(("strings:built", True, None, viol))
+        if viol is None:
+            # dictionary round trip and self-merge keep the unions
+            try:
+                d = c.to_dict()
+                c2 = PolyhedralIoContractCompound.from_strings(**d)
+                out.append(("strings:roundtrip", True, None, check(c2, "to_dict/from_strings round trip")))
+            except Exception as e:  # noqa
+                out.append(("strings:roundtrip", False, None, {"sub": "roundtrip", "what": "round trip raised %s" % type(e).__name__}))
+            try:
+                m = c.merge(c)
+                out.append(("strings:selfmerge", True, None, check(m, "merge of a compound contract with itself")))
+            except ValueError:
+                out.append(("strings:selfmerge-ValueError", False, None, None))
+        return out
     if fam == "mergeseq":
         for k, (g1, g2) in enumerate(case["seq"]):
             r = run_case({"fam": "merge", "a1": [interval("i", 0, 1)], "g1": [g1], "a2": [interval("i", 0, 2)], "g2": [g2]})
